@@ -41,8 +41,12 @@ type c12 struct{}
 func init() { core.Register(c12{}) }
 
 func (c12) ID() string { return "C12" }
+
+var c12OddPayloads = []string{`null`, ` null `, `[]`, `"targetArtifact"`, `7`, `true`, `{}`, `{"targetArtifact":null}`, `{"targetArtifact":[]}`, `{"targetArtifact":"x"}`,
+	`{"targetArtifact":{"mediaType":null,"digest":null,"size":null,"annotations":null}}`, `{"targetArtifact":{"digest":"sha256:","size":-1}}`, `[null]`, `{"targetArtifact":{"annotations":{"a":null}}}`}
+
 func (c12) Rule() string {
-	return "fault-heavy plans: <= 8 operations over surfaces {verify: random bytes and 1-6-fold mutations of valid JWS / COSE envelopes through the four entry points x verifier constructions (OCI-only, blob-only, both, nil plugin manager, skip-level statements) x four levels; verification plugin answering with nil / partial / wrong-typed responses; policy / signing-key / config files truncated, flipped, mutated or random on the simulated disk, then loaded and used; CRL cache files corrupted then read; trust-store certificate files corrupted then loaded; a hostile OCI layout (index.json and blobs corrupted at rest, mutated referrer manifests) through NewOCIRepository / Resolve / ListSignatures / FetchSignatureBlob; CLI plugin stdout / stderr random or mutated for the five commands}. Oracle: no panic, bounded allocation per call, and (outcome, error) consistency. non-trivial: every run; distinct: hash of (surface, variant, outcome class) sequence"
+	return "fault-heavy plans: <= 8 operations over surfaces {verify: random bytes, 1-6-fold mutations of valid JWS / COSE envelopes and intact validly signed envelopes whose payload is null / an array / a scalar / an object with null or mistyped members, through the four entry points x verifier constructions (OCI-only, blob-only, both, nil plugin manager, skip-level statements) x four levels; verification plugin answering with nil / partial / wrong-typed responses; policy / signing-key / config files truncated, flipped, mutated or random on the simulated disk, then loaded and used; CRL cache files corrupted then read; trust-store certificate files corrupted then loaded; a hostile OCI layout (index.json and blobs corrupted at rest, mutated referrer manifests) through NewOCIRepository / Resolve / ListSignatures / FetchSignatureBlob; CLI plugin stdout / stderr random or mutated for the five commands}. Oracle: no panic, bounded allocation per call, and (outcome, error) consistency. non-trivial: every run; distinct: hash of (surface, variant, outcome class) sequence"
 }
 func (c12) Components() map[string]string {
 	return map[string]string{
@@ -173,6 +177,15 @@ func (l c12) Exec(env *core.Env) *core.Result {
 			}
 			if b5, err := world.SignPayload(chain, world.PayloadFor(ociDesc), world.SignOpts{MediaType: f, ExtAttrs: []signature.Attribute{{Key: int64(2000), Critical: false, Value: 42}}}); err == nil {
 				validSigs["num"] = b5
+			}
+		}
+	}
+	// intact, validly signed envelopes whose payload is a JSON value of another shape than the payload document
+	oddSigs := map[string][][]byte{}
+	for _, f := range world.Formats {
+		for _, pl := range c12OddPayloads {
+			if b, err := world.SignPayload(chain, []byte(pl), world.SignOpts{MediaType: f}); err == nil {
+				oddSigs[f] = append(oddSigs[f], b)
 			}
 		}
 	}
@@ -338,6 +351,10 @@ func (l c12) Exec(env *core.Env) *core.Result {
 						kind = "blob"
 					}
 					sig = mutateBytes(validSigs[kind+format], seed, int(b%7))
+					if odd := oddSigs[format]; len(odd) > 0 && seed%5 == 2 {
+						sig = odd[int(seed/5)%len(odd)]
+						res.Probe("validly_signed_envelope_with_an_odd_payload")
+					}
 				}
 				policyName := ""
 				if level == "skip" || seed%3 == 0 {
